@@ -152,6 +152,10 @@ def _gen_dot(rng, directed):
                 out.append(["node", rng.choice(ids)])
             elif fancy and r < 0.42:
                 out.append(["attr", rng.choice(ATTRS)])
+            elif fancy and r < 0.47:
+                # a comment up to the end of the line (whatever ends it)
+                out.append(["comment", rng.choice(["a note", "1 -- 2",
+                                                   "2 -> 1;", "}"])])
             elif r < 0.8 or depth >= 2:
                 a, b = endpoint(depth), endpoint(depth)
                 if a != b:
@@ -163,8 +167,14 @@ def _gen_dot(rng, directed):
                             stmts(depth + 1)])
         return out
 
-    return {"directed": directed, "stmts": stmts(0),
-            "strict": rng.random() < 0.5}
+    d = {"directed": directed, "stmts": stmts(0),
+         "strict": rng.random() < 0.5}
+    if fancy:
+        d["eol"] = rng.choice(["\n", "\n", "\r\n", "\r"])
+    if rng.random() < 0.06:
+        # '01' and '1' are two vertices (identifiers are strings)
+        d["stmts"].insert(0, ["rawnode", "0%d" % rng.choice(ids)])
+    return d
 
 
 def _dot_text(d):
@@ -186,6 +196,10 @@ def _dot_text(d):
                 lines.append("%s%d;" % (ind, x[1]))
             elif x[0] == "attr":
                 lines.append("%s%s;" % (ind, x[1]))
+            elif x[0] == "comment":
+                lines.append("%s// %s" % (ind, x[1]))
+            elif x[0] == "rawnode":
+                lines.append("%s%s;" % (ind, x[1]))
             elif x[0] == "edge":
                 lines.append("%s%s%s%s;" % (ind, ep(x[1], ind), arrow,
                                             ep(x[2], ind)))
@@ -197,13 +211,15 @@ def _dot_text(d):
 
     head = ("strict " if d["strict"] else "") + (
         "digraph" if d["directed"] else "graph")
-    return "\n".join([head + " G {"] + render(d["stmts"], "  ") + ["}"]) + \
+    text = "\n".join([head + " G {"] + render(d["stmts"], "  ") + ["}"]) + \
         "\n"
+    return text.replace("\n", d.get("eol", "\n"))
 
 
 def _dot_reference(d, gtype):
     nodes, edges = set(), set()
     unusual = []
+    raw = []
 
     def members(x):
         """The vertices an edge endpoint stands for."""
@@ -221,8 +237,10 @@ def _dot_reference(d, gtype):
         for x in st:
             if x[0] == "node":
                 mine.add(x[1])
-            elif x[0] == "attr":
+            elif x[0] in ("attr", "comment"):
                 pass
+            elif x[0] == "rawnode":
+                raw.append(x[1])
             elif x[0] == "edge":
                 A, B = members(x[1]), members(x[2])
                 mine.update(A | B)
@@ -237,8 +255,9 @@ def _dot_reference(d, gtype):
     if any(a == b for a, b in edges):
         return graphref.Gray("a loop")
     rank = {v: i for i, v in enumerate(sorted(nodes), start=1)}
+    extra = len(set(raw))
     if d["directed"]:
-        ref = RefDirected(len(nodes))
+        ref = RefDirected(len(nodes) + extra)
         for a, b in edges:
             ref.add(rank[a], rank[b])
         if gtype == "dag" and not ref.is_dag():
@@ -246,10 +265,15 @@ def _dot_reference(d, gtype):
     else:
         if len(set(frozenset(e) for e in edges)) != len(edges):
             return graphref.Gray("the same edge written in both directions")
-        ref = RefSimple(len(nodes))
+        ref = RefSimple(len(nodes) + extra)
         for a, b in edges:
             ref.add(rank[a], rank[b])
+    if extra and gtype == "dag":
+        return graphref.Gray("the place of '01' in the order")
     v = graphref.Valid(ref)
+    # where '01' goes in the numbering is the reader's business: only the
+    # numbers of vertices and edges are compared
+    v.loose = bool(extra)
     # "a graph consistent with the text or ValueError": the reader may
     # decline subgraphs and ports, it must not misread them
     v.may_refuse = bool(unusual)
@@ -345,8 +369,11 @@ def generate(rng, config):
 
 
 def _gen_load(rng, fmt):
-    return {"how": rng.choice(["file", "file", "stream", "from_file",
-                               "from_file_stream", "spec", "spec"]),
+    how = rng.choice(["file", "file", "stream", "from_file",
+                      "from_file_stream", "spec", "spec"])
+    if fmt in ("kthlist", "dimacs", "matrix") and rng.random() < 0.04:
+        how = "bytes_stream"       # open(name, 'rb'), io.BytesIO
+    return {"how": how,
             "explicit": rng.random() < 0.5,
             "newline": rng.choice([None, None, "\n", ""]),
             "chunk": rng.choice([None, None, 1, 2, 3, 7]),
@@ -530,6 +557,12 @@ def _load(data, case, fs, ctx, gtype, plan_extra=None):
         newline = ld.get("newline")
         if how in ("stream", "from_file_stream") and newline is not None:
             ctx.fault("stream_without_universal_newlines")
+        if how == "bytes_stream" and "eio_at" in plan:
+            how = "stream"         # (a BytesIO has no device that can fail)
+        if how == "bytes_stream":
+            import io
+            ctx.fault("binary_stream")
+            return call(readGraph, io.BytesIO(data), gtype, fmt)
         if how == "stream":
             st = text_reader(data, name=name, plan=plan, on_fire=ctx.fault,
                              newline=newline)
@@ -691,6 +724,11 @@ def _judge(data, res, ctx, fmt, gtype, where, eio=False, case=None):
         # ValueError" - the reader may decline what it does not support
         ctx.probe("dot text with subgraphs declined")
         return
+    if res[0] == "exc" and case is not None and \
+            case["load"]["how"] == "bytes_stream":
+        # binary streams are admitted, not promised: a ValueError is fine
+        ctx.probe("binary stream declined")
+        return
     if res[0] == "exc" and _LONE_CR.search(data):
         # a line ended by CR alone (old Mac): a reader may decline it, it
         # must not read it in two ways
@@ -699,6 +737,15 @@ def _judge(data, res, ctx, fmt, gtype, where, eio=False, case=None):
     if res[0] == "exc":
         bad("valid-text-rejected", "reference reader accepts %r but %r was "
             "raised" % (ref.graph.state(), res[1]))
+    if getattr(ref, "loose", False):
+        G = res[1]
+        got = (G.number_of_vertices(), len(list(G.edges())))
+        want = (ref.graph.n, len(ref.graph.edges()))
+        if got != want:
+            bad("text-misread", "%d vertices and %d edges, the text has %d "
+                "and %d ('01' and '1' are two vertices)" % (got + want))
+        ctx.probe("dot: identifiers that differ only by a leading zero")
+        return
     diff = _equal(res[1], ref.graph)
     if diff:
         bad("text-misread", diff)
@@ -782,6 +829,10 @@ def execute(case, ctx):
                                     (fmt, exc_signature(res[1], REPO)),
                                     "%s\n%r" % (where, res[1]))
                 return
+            if res[0] == "exc" and ld["how"] == "bytes_stream" and \
+                    isinstance(res[1], ValueError):
+                ctx.probe("binary stream declined")
+                return
             if res[0] == "exc":
                 raise Violation("C14/roundtrip-load-failed/%s/%s/%s" %
                                 (fmt, gtype, exc_signature(res[1], REPO)),
@@ -823,7 +874,8 @@ def execute(case, ctx):
                 ctx.fault("truncate")
                 res = _load(data[:k], case, fs, ctx, ltype)
                 _judge(data[:k], res, ctx, fmt, ltype,
-                       "%s truncated at %d/%d" % (where, k, len(data)))
+                       "%s truncated at %d/%d" % (where, k, len(data)),
+                       case=case)
             ctx.log("truncate_all", len(data))
             return
         import random as _r
@@ -843,7 +895,7 @@ def execute(case, ctx):
         res = _load(data, case, fs, ctx, ltype, plan_extra=extra)
         ctx.log("load-damaged", applied, eio, ld["how"], res[0])
         _judge(data, res, ctx, fmt, ltype, "%s faults=%r eio=%r" %
-               (where, applied, eio), eio=extra is not None)
+               (where, applied, eio), eio=extra is not None, case=case)
 
 
 SHRINK_SKIP = {"seed"}
